@@ -293,6 +293,22 @@ def verdict(klass, ld, rd):
     return None  # comparisons accept dimensionless; value-into-array idioms adopt the target's unit
 
 
+_EM = None
+
+
+def _em_counterparts(ld, rd):
+    global _EM
+    if _EM is None:
+        _EM = set()
+        for a, b in (("C", "statC"), ("A", "statA"), ("T", "G"), ("V", "statV"), ("ohm", "statohm")):
+            da, db = dim_of(Unit(a).dimensions), dim_of(Unit(b).dimensions)
+            _EM.add((da.key(), db.key()))
+            _EM.add((db.key(), da.key()))
+    if isinstance(ld, str) or isinstance(rd, str):
+        return False
+    return (ld.key(), rd.key()) in _EM
+
+
 def eval_case(ctx, op, lk, rk, triple, shape, seed=0):
     name, form, klass, func, _req = op
     x = mk(lk, triple, shape, 0, seed)
@@ -311,6 +327,11 @@ def eval_case(ctx, op, lk, rk, triple, shape, seed=0):
         v = None
     if name == "copyto":
         v = None  # a full copy makes dst an exact copy of src (numbers and unit): nothing is combined
+    if v == "must_raise" and klass in ("convert", "into") and _em_counterparts(ld, rd):
+        # the documented SI <-> Gaussian electromagnetic counterparts (C/statC, A/statA, T/G, V/statV, ohm/statohm)
+        # convert into each other although their dimensions differ (properties C03/C10 rely on it): no C01 verdict
+        ctx.count("em_counterpart_conversion_unjudged")
+        v = None
     if form == "reduce_initial" and isinstance(rd, str):
         v = None  # a bare initial value adopts the array's unit, like other bare fill values
     bx, by = snap(x), snap(y)
